@@ -165,15 +165,7 @@ func flagSetByRegistration(c *core.Ctx, flag string) string {
 	}
 	t := newTbl(c)
 	dlg := absint.NewTok("delegate", "delegate")
-	if st, ok := bs.recv.Underlying().(*types.Struct); ok {
-		z := absint.New(nil)
-		for i := 0; i < st.NumFields(); i++ {
-			switch st.Field(i).Type().Underlying().(type) {
-			case *types.Slice, *types.Basic, *types.Map:
-				dlg.Fields[st.Field(i).Name()] = z.ZeroOf(st.Field(i).Type())
-			}
-		}
-	}
+	zeroState(dlg, bs.recv, 0)
 	p := absint.NewTok("P", "processor")
 	t.typeTest = func(v absint.Value, T types.Type) (bool, bool) {
 		if v != absint.Value(p) {
@@ -209,8 +201,8 @@ func flagSetByRegistration(c *core.Ctx, flag string) string {
 		return "abstract interpretation left the model: " + out.Undecided.Msg
 	case out.Panic != nil:
 		return "registration panics: " + out.Panic.Msg
-	case dlg.Fields[flag] != absint.Value(absint.Bool(true)):
-		return fmt.Sprintf("after %s(P) the field %s is %s", core.FnName(bs.register), flag, absint.Show(dlg.Fields[flag]))
+	case stateGet(dlg, flag) != absint.Value(absint.Bool(true)):
+		return fmt.Sprintf("after %s(P) the field %s is %s", core.FnName(bs.register), flag, absint.Show(stateGet(dlg, flag)))
 	}
 	return ""
 }
